@@ -4,7 +4,9 @@
 #include "env/common.h"
 #include <time.h>
 /* an arbitrary clock: time() returns any value, difftime is the difference as a double [ASSUMED] */
-time_t time(time_t *t) { time_t v; long long n = nondet_ll(); v = (time_t)n; if (t) *t = v; return v; }
+/* the clock does not advance while ONE client operation runs: time() returns the same arbitrary g_env_now */
+long long g_env_now;
+time_t time(time_t *t) { time_t v = (time_t)g_env_now; if (t) *t = v; return v; }
 double difftime(time_t a, time_t b) { return (double)a - (double)b; }
 
 /* ---- the response object seen by handleResponse(): its 8 call-backs as stubs with ghost results [ASSUMED] ------ */
@@ -27,5 +29,6 @@ int as_getErrorMsg(const void *resp, KSI_Utf8String **msg) { *msg = NULL; return
 void *as_resp_ref(void *resp) { g_as_ref_calls++; return resp; }
 void as_resp_free(void *resp) { }
 
-#define ENV_NET_ASYNC_ASSUMED "time(): arbitrary value; difftime(a,b) = (double)a - (double)b (env/net_async_env.h)"
+int g_env_dispatch_res, g_env_handle_res;   /* results of the transport dispatch / response-queue call-backs of asyncClient_run */
+#define ENV_NET_ASYNC_ASSUMED "time(): arbitrary value, constant during one client operation; difftime(a,b) = (double)a - (double)b (env/net_async_env.h)"
 #endif
